@@ -556,5 +556,5 @@ func genC10(rt *rapid.T) c10Case {
 }
 
 func TestC10WireMessages(t *testing.T) {
-	common.Check(t, "C10", "TestC10WireMessages", 3000, 150000, genC10, c10Prop)
+	common.Check(t, "C10", "TestC10WireMessages", 10000, 400000, genC10, c10Prop)
 }
